@@ -18,9 +18,9 @@ DEFAULTS = dict(
 )
 
 PROFILES = {
-    'core': dict(),
+    'core': dict(smi_conflict=0.7),
     'core_flat': dict(depth=(1, 1)),
-    'hier': dict(depth=(2, 3), regions=(1, 2)),
+    'hier': dict(depth=(2, 3), regions=(1, 2), smi_conflict=0.7),
     'hier_sparse': dict(depth=(3, 3), regions=(1, 2), nevents=(6, 6), sparse_events=True, sub_initial=0.8, states_per_region=(2, 2),
                         row_weights=(0, 1, 1, 2, 2, 3)),
     'completion': dict(completion=0.6, state_internal=0.0, sm_internal=0.0, depth=(1, 2)),
@@ -36,6 +36,8 @@ PROFILES = {
                   state_internal=0.2, sm_internal=0.0, scripts=True, visitable=True, root_history=0.4),
     'common': dict(depth=(1, 3), regions=(1, 3), completion=0.3, history=0.4, pseudo=0.4, row_budget=11, states_per_region=(2, 3),
                    state_internal=0.3, sm_internal=0.0, flags=0.5, blocking=0.25, deferral=0.4, scripts=True),
+    'common_smi': dict(smi_conflict=0.7, depth=(1, 3), regions=(1, 3), completion=0.3, history=0.4, pseudo=0.4, row_budget=11, states_per_region=(2, 3),
+                   state_internal=0.3, sm_internal=0.7, flags=0.5, blocking=0.25, deferral=0.4, scripts=True),
     'frontlang': dict(depth=(1, 1), regions=(1, 3), states_per_region=(2, 3), guard_composite=0.7, guard_none=0.15, action_max=3,
                       state_internal=0.0, sm_internal=0.0, completion=0.3, flags=0.7, blocking=0.3, terminate_only=True,
                       internal_row=0.15, puml_guards=True, row_budget=16),
@@ -218,6 +220,8 @@ class Gen:
         elif r.random() < p['sm_internal']:
             m['internal'] = [dict(ev=r.choice(evs), guard=self.guard(), actions=self.iactions())
                              for _ in range(r.choice([1, 1, 2]))]
+            if p.get('smi_conflict', 0) > 0 and len(m['internal']) == 2 and r.random() < p['smi_conflict']:
+                m['internal'][1]['ev'] = m['internal'][0]['ev']      # conflicting machine-level internal rows: priority by position
         if p['completion'] > 0:
             self.add_completion(m)
         if (level > 1 and p['history'] > 0 and r.random() < p['history']) or (level == 1 and p.get('root_history', 0) > 0 and r.random() < p['root_history']):
